@@ -35,7 +35,7 @@ RULE = (
     "among histories with at least one reuse decision (cache entry or destination entry present when a call starts)."
 )
 ASSUMPTIONS = [
-    "Interleaving inside two concurrently running runners is not modelled: they are separate OS processes working on disjoint files; only their completion order is scheduled.",
+    "Two runners interleave at one granularity only: while a command of one runner executes, another pending runner may run from start to end (seeded; bounded by n_workers). Finer interleavings inside run_local are not modelled (in-process children share the cwd).",
     "'Succeeded' means what C17 means: every command returned 0 and every requested file exists.",
     "After an injected interrupt the call's effects may be partial (a subset of the expected executions and destination entries); everything else is checked exactly.",
     "The _molli_run boundary is SimSpawn (conformance-tested against the real script); external programs are FakeExec scripts.",
@@ -52,9 +52,9 @@ HASHSEED_SENSITIVE = True
 
 PROBES = ["cache_hit_valid", "cache_other_tag", "cache_failed_rc", "cache_success_flag_but_missing_file", "cache_unreadable", "destination_only_key",
           "item_already_in_destination", "vectorised_partly_cached", "runner_killed", "output_torn", "interrupt_prepare", "interrupt_submit",
-          "interrupt_wait", "interrupt_finalise", "tag_changed_between_calls", "fail_after_writing_return_file", "closing_call_completed", "idempotent_call_checked"]
+          "interrupt_wait", "interrupt_finalise", "tag_changed_between_calls", "fail_after_writing_return_file", "closing_call_completed", "idempotent_call_checked", "runners_overlapped"]
 
-OUTCOMES = ["ok", "ok", "ok", "rc1", "rc2", "sig", "nofile", "fail_with_file"]
+OUTCOMES = ["ok", "ok", "ok", "ok", "rc1", "rc2", "sig", "nofile", "fail_with_file", "sig_with_file"]
 
 
 def budget(tier):
@@ -301,6 +301,8 @@ def run_plan(plan, trace=False):
                     return {"rc": 0}
                 if o == "fail_with_file":
                     return {"rc": 1, "files": {"out.txt": content}}
+                if o == "sig_with_file":
+                    return {"rc": -9, "files": {"out.txt": content}}
                 raise HarnessError(f"unknown outcome {o}")
 
             fe = FakeExec(behaviour)
@@ -308,6 +310,7 @@ def run_plan(plan, trace=False):
             sp = SimSpawn(spawn_faults)
             tq = SimTqdmFactory(call["interrupt"])
             exf = SimExecutorFactory(call["exec_seed"])
+            fe.hook = exf.overlap_hook
             raised = None
             with pipeline_seams(fe, sp, exf, tq):
                 try:
@@ -325,6 +328,8 @@ def run_plan(plan, trace=False):
                          f"call #{ci} (tag {tag}) raised {e!r} at {site.filename.split('/')[-1]}:{site.lineno}; dest keys {sorted(model_dest)} source keys {sorted(all_items)}")
                     break
             res.evals += 1
+            if exf.overlaps:
+                res.stats["probe:runners_overlapped"] += exf.overlaps
             if executed and not sp.log:
                 raise HarnessError("SEAM-LOST C18: commands ran but no _molli_run spawn went through SimSpawn")
             if expect_exec and not exf.executors and raised is None:
@@ -369,9 +374,9 @@ def run_plan(plan, trace=False):
                     res.stats["probe:output_torn"] += 1
                     cache[e] = "unreadable"
                     continue
-                rc = {"ok": 0, "rc1": 1, "rc2": 2, "sig": -11, "nofile": 0, "fail_with_file": 1}[o]
-                has_file = o in ("ok", "fail_with_file")
-                if o == "fail_with_file":
+                rc = {"ok": 0, "rc1": 1, "rc2": 2, "sig": -11, "nofile": 0, "fail_with_file": 1, "sig_with_file": -9}[o]
+                has_file = o in ("ok", "fail_with_file", "sig_with_file")
+                if o in ("fail_with_file", "sig_with_file"):
                     res.stats["probe:fail_after_writing_return_file"] += 1
                 cache[e] = {"tag": tg, "success": rc == 0 and has_file, "rc": rc, "content": f"{e}|{tg}|#{n_}" if has_file else None}
             for e, flt in call["faults"].items():
